@@ -13,11 +13,13 @@ package gocql
 
 import (
 	"bufio"
+	"bytes"
 	"context"
 	"encoding/json"
 	"fmt"
 	"math/rand"
 	"os"
+	"sort"
 	"strconv"
 	"strings"
 	"sync"
@@ -39,18 +41,24 @@ type vfC13E2ERun struct {
 	classOf  map[int]string
 	maxTries int
 
-	gids      map[int64]int // goroutine -> execution (numbered by first iterator call)
-	execOfH   map[int]int   // host index -> execution that picked it last
-	pending   map[int]int   // execution -> attempt the node has seen and the driver has not reported yet
-	unseen    map[int]int   // host -> attempts the driver reported which the node had not seen
-	observer  bool          // "end" events come from the Query/BatchObserver callback
-	delay     time.Duration // the node answers its first request only after this long
-	nodeDone  chan struct{} // closed when the delayed answer has been sent
-	ctx       context.Context
-	cancelLog bool
-	scen      string
-	hold      chan struct{}  // non-nil: the nodes stay silent until it is closed
-	nodes     sync.WaitGroup // requests of this statement the nodes are still handling
+	gids       map[int64]int // goroutine -> execution (numbered by first iterator call)
+	execOfH    map[int]int   // host index -> execution that picked it last
+	pending    map[int]int   // execution -> attempt the node has seen and the driver has not reported yet
+	unseen     map[int]int   // host -> attempts the driver reported which the node had not seen
+	observer   bool          // "end" events come from the Query/BatchObserver callback
+	delay      time.Duration // the node answers its first request only after this long
+	nodeDone   chan struct{} // closed when the delayed answer has been sent
+	ctx        context.Context
+	cancelLog  bool
+	scen       string
+	fixedOrder bool   // the host policy offers the hosts in the same order on every Pick
+	cancelIn   func() // called inside the retry policy's Attempt: the caller cancels BETWEEN two attempts
+	dialer     *vfDialer
+	base       map[string]int // bytes the driver had written to each node when the statement began
+	handled    map[string]int // requests of this statement the nodes have handled, per node
+	marker     []byte         // text only this statement's request frames contain, once per request
+	hold       chan struct{}  // non-nil: the nodes stay silent until it is closed
+	nodes      sync.WaitGroup // requests of this statement the nodes are still handling
 }
 
 func (r *vfC13E2ERun) execLocked() int {
@@ -71,6 +79,41 @@ func (r *vfC13E2ERun) noteExpiredLocked() {
 	}
 }
 
+// bytes the driver has written so far on its connections to the node
+func vfC13E2EWritten(d *vfDialer, addr string) int {
+	n, _ := vfC13E2EWrittenSince(d, addr, 0, nil)
+	return n
+}
+
+// total bytes written to the node, and how often `marker` occurs in those after offset `from`
+func vfC13E2EWrittenSince(d *vfDialer, addr string, from int, marker []byte) (total, hits int) {
+	d.mu.Lock()
+	cs := append([]*vfMemConn{}, d.DriverConns[addr]...)
+	d.mu.Unlock()
+	for _, c := range cs {
+		c.fmu.Lock()
+		if marker != nil {
+			lo := from - total
+			if lo < 0 {
+				lo = 0
+			}
+			if lo < len(c.wrote) {
+				hits += bytes.Count(c.wrote[lo:], marker)
+			}
+		}
+		total += len(c.wrote)
+		c.fmu.Unlock()
+	}
+	return
+}
+
+// has the driver written a request of THIS statement (its text is in the frame) that the node has
+// not handled yet?  Only bytes written since the statement began are looked at.
+func (r *vfC13E2ERun) onTheWireLocked(addr string) bool {
+	_, hits := vfC13E2EWrittenSince(r.dialer, addr, r.base[addr], r.marker)
+	return hits > r.handled[addr]
+}
+
 // driver-side report of an attempt (public observer API): the attempt the node saw ends, or - if
 // the node saw none - the attempt was refused before the wire (context already done)
 func (r *vfC13E2ERun) observed(host *HostInfo, err error) {
@@ -78,21 +121,32 @@ func (r *vfC13E2ERun) observed(host *HostInfo, err error) {
 	defer r.mu.Unlock()
 	e := r.execLocked()
 	class, _ := vfC13E2EErr(err)
-	if class == "canceled" || class == "deadline" {
-		r.noteExpiredLocked()
-	}
+	ctxErr := class == "canceled" || class == "deadline"
 	h := r.hostIdx[host.ConnectAddress().String()]
 	aid, ok := r.pending[e]
+	wire := !ok && r.onTheWireLocked(host.ConnectAddress().String())
+	if ctxErr && (ok || !wire) {
+		r.noteExpiredLocked()
+	}
 	if !ok {
 		// The node has not seen this attempt: it was refused before the wire (context already
-		// done), or its request is still on its way while the driver has given up.  The two
-		// cannot be told apart from outside; it is logged as refused (the lenient reading: it is
-		// not counted as having reached a server), and if the request does arrive at the node
-		// later it is this attempt, not a new one.
+		// done), or its request is still on its way while the driver has given up.  The bytes the
+		// driver has written on its connection to that node decide (statements run one at a time;
+		// no wall clock involved): more written than the node has handled = the request was sent.
+		// When it arrives at the node later it is this attempt, not a new one.
 		r.natt[e]++
 		aid = 10*e + r.natt[e]
-		r.unseen[h]++
-		r.log = append(r.log, vfC13Ev{Ev: "start", E: e, H: h, N: aid, X: "refused"})
+		x := "refused"
+		if wire {
+			x = "sent"
+			r.unseen[h]++
+		}
+		r.log = append(r.log, vfC13Ev{Ev: "start", E: e, H: h, N: aid, X: x})
+		if ctxErr && wire {
+			// the request left while the timer context was still alive (Conn.exec refuses a dead
+			// one): the expiry is noted after it
+			r.noteExpiredLocked()
+		}
 	}
 	delete(r.pending, e)
 	r.log = append(r.log, vfC13Ev{Ev: "end", E: e, H: h, N: aid, X: class})
@@ -110,7 +164,7 @@ func vfC13E2EIdOf(stmt string) int {
 	if !strings.HasPrefix(stmt, "vfc13 ") {
 		return 0
 	}
-	id, _ := strconv.Atoi(strings.Fields(stmt)[1])
+	id, _ := strconv.Atoi(strings.TrimRight(strings.Fields(stmt)[1], ";"))
 	return id
 }
 
@@ -136,6 +190,7 @@ func vfC13E2EHandler(addr string) func(nc *vfNodeConn, f *vfFrame, q *vfRequest)
 		r := v.(*vfC13E2ERun)
 		r.mu.Lock()
 		h := r.hostIdx[addr]
+		r.handled[addr]++
 		if r.unseen[h] > 0 { // the late arrival of an attempt the driver has already reported
 			r.unseen[h]--
 			r.mu.Unlock()
@@ -150,6 +205,9 @@ func vfC13E2EHandler(addr string) func(nc *vfNodeConn, f *vfFrame, q *vfRequest)
 		class := r.classes[r.rng.Intn(len(r.classes))]
 		if r.rng.Intn(4) == 0 || r.total >= r.maxTries {
 			class = "ok"
+		}
+		if r.scen == "cancel-between" && r.total == 1 {
+			class = "overloaded" // a retryable failure, so that the retry policy is consulted
 		}
 		if r.scen == "spec" {
 			// the first request (the main execution's) is answered late and with a retryable
@@ -234,6 +292,36 @@ func vfC13E2EErr(err error) (class string, aid int) {
 
 type vfC13E2EPolicy struct {
 	HostSelectionPolicy
+	mu    sync.Mutex
+	hosts []*HostInfo
+}
+
+func (p *vfC13E2EPolicy) AddHost(h *HostInfo) {
+	p.mu.Lock()
+	p.hosts = append(p.hosts, h)
+	sort.Slice(p.hosts, func(i, j int) bool {
+		return p.hosts[i].ConnectAddress().String() < p.hosts[j].ConnectAddress().String()
+	})
+	p.mu.Unlock()
+	p.HostSelectionPolicy.AddHost(h)
+}
+
+// a plan with a REPEATABLE order (like a token-aware plan for one routing key): the same hosts in
+// the same order on every Pick
+func (p *vfC13E2EPolicy) fixedPlan() NextHost {
+	p.mu.Lock()
+	hs := append([]*HostInfo{}, p.hosts...)
+	p.mu.Unlock()
+	i := 0
+	return func() SelectedHost {
+		for i < len(hs) {
+			i++
+			if hs[i-1].IsUp() {
+				return (*selectedHost)(hs[i-1])
+			}
+		}
+		return nil
+	}
 }
 
 func (p *vfC13E2EPolicy) Pick(q ExecutableQuery) NextHost {
@@ -243,6 +331,9 @@ func (p *vfC13E2EPolicy) Pick(q ExecutableQuery) NextHost {
 		return inner
 	}
 	r := v.(*vfC13E2ERun)
+	if r.fixedOrder {
+		inner = p.fixedPlan()
+	}
 	return func() SelectedHost {
 		sh := inner()
 		r.mu.Lock()
@@ -269,6 +360,14 @@ type vfC13E2ERT struct {
 }
 
 func (w *vfC13E2ERT) Attempt(q RetryableQuery) bool {
+	w.r.mu.Lock()
+	if c := w.r.cancelIn; c != nil {
+		// the caller's context ends now: after an attempt has failed, before the next one starts
+		w.r.cancelIn = nil
+		w.r.log = append(w.r.log, vfC13Ev{Ev: "cancel", X: "cancel"})
+		c()
+	}
+	w.r.mu.Unlock()
 	n := q.Attempts()
 	ans := w.real.Attempt(vfC13Snap{q, n})
 	x := "no"
@@ -382,7 +481,12 @@ func TestVfC13E2E(t *testing.T) {
 	for i := 0; i < n; i++ {
 		id := base + i + 1
 		r := &vfC13E2ERun{id: id, rng: rand.New(rand.NewSource(rng.Int63())), hostIdx: map[string]int{}, classOf: map[int]string{},
-			maxTries: 12, natt: map[int]int{}, gids: map[int64]int{}, execOfH: map[int]int{}, pending: map[int]int{}, unseen: map[int]int{}}
+			maxTries: 12, natt: map[int]int{}, gids: map[int64]int{}, execOfH: map[int]int{}, pending: map[int]int{}, unseen: map[int]int{},
+			dialer: d, base: map[string]int{}, handled: map[string]int{}}
+		for _, nd := range nodes {
+			a := nd.Addr.IP.String()
+			r.base[a] = vfC13E2EWritten(d, a)
+		}
 		cfgm := vfC13Cfg{K: 0, Idem: rng.Intn(4) != 0, Allow: []int{}, Hosts: []string{}}
 		// scenario: plain / the caller's deadline expires while the (slow) first node has not answered /
 		// a statement that is NOT idempotent with a speculative policy and a slow first node
@@ -390,7 +494,7 @@ func TestVfC13E2E(t *testing.T) {
 		// error only after a speculative execution elsewhere has delivered the result
 		// / an idempotent statement with a speculative policy whose caller cancels after every execution
 		// was launched and while all nodes are silent: the call must return all the same
-		scen := []string{"plain", "plain", "plain", "plain", "deadline", "specnonidem", "spec", "spec-cancel"}[rng.Intn(8)]
+		scen := []string{"plain", "plain", "plain", "cancel-between", "deadline", "specnonidem", "spec", "spec-cancel"}[rng.Intn(8)]
 		r.scen = scen
 		pols := []string{"none", "simple", "expo", "downgrade", "script", "default"}
 		r.polName = pols[rng.Intn(len(pols))]
@@ -413,8 +517,8 @@ func TestVfC13E2E(t *testing.T) {
 		default:
 			cfgm.Polkind = "budget"
 			cfgm.Poln = rng.Intn(4)
-			if scen == "spec" {
-				cfgm.Poln = 2 + rng.Intn(2) // a budget the losing execution's retry would still fit in
+			if scen == "spec" || scen == "cancel-between" {
+				cfgm.Poln = 2 + rng.Intn(2) // a budget the retry in question would still fit in
 			}
 			switch r.polName {
 			case "simple":
@@ -455,7 +559,14 @@ func TestVfC13E2E(t *testing.T) {
 			r.delay = 6 * time.Millisecond
 			ctx, cancel = context.WithTimeout(ctx, 1500*time.Microsecond)
 			r.ctx = ctx
+		case "cancel-between":
+			// the caller cancels while the retry policy is being consulted, i.e. between two attempts:
+			// the retry must not reach any server
+			observer = true
+			ctx, cancel = context.WithCancel(ctx)
+			r.cancelIn = cancel
 		case "spec":
+			r.fixedOrder = rng.Intn(2) == 0
 			cfgm.Idem = true
 			cfgm.K = 1
 			r.delay = 4 * time.Millisecond
@@ -479,11 +590,22 @@ func TestVfC13E2E(t *testing.T) {
 		var rerr error
 		var exec func() error
 		cleanup := func() {}
+		release := func() {}
 		text := fmt.Sprintf("vfc13 %d", id)
+		r.marker = []byte(text + ";")
 		entries := ""
 		if stmt == "query" {
 			// idempotence comes from the real statement: Query.Idempotent
-			q := s.Query(text).Idempotent(cfgm.Idem).Consistency(Quorum).WithContext(ctx)
+			// Session.Query takes the object from the driver's pool; statements that need no context of
+			// their own run on that very object and hand it back with Release() afterwards, so that later
+			// statements re-use it (a recycled Query must start with Attempts() = 0)
+			q0 := s.Query(text + ";")
+			q := q0.Idempotent(cfgm.Idem).Consistency(Quorum)
+			if scen == "plain" {
+				release = func() { q0.Release() }
+			} else {
+				q = q.WithContext(ctx)
+			}
 			if setter != "default" {
 				q.RetryPolicy(rt) // rt is the nil interface for "nil"
 			}
@@ -502,6 +624,9 @@ func TestVfC13E2E(t *testing.T) {
 			b.Entries, entries = vfC13Entries(cfgm.Idem, rng.Intn(4))
 			for k := range b.Entries {
 				b.Entries[k].Stmt = fmt.Sprintf("%s e%d", text, k)
+				if k == 0 {
+					b.Entries[k].Stmt = text + "; e0"
+				}
 			}
 			b.Cons = Quorum
 			if setter != "default" {
@@ -595,6 +720,7 @@ func TestVfC13E2E(t *testing.T) {
 			}
 		}
 		cleanup()
+		release()
 		vfC13E2ERuns.Delete(id)
 		r.mu.Lock()
 		// hosts the round robin did not get to offer
